@@ -400,7 +400,7 @@ fn configs(tier: Tier) -> Vec<(C01, usize)> {
         Tier::Quick => {
             for &w in &[1usize, 3, 8, 20] {
                 for tpl0 in [0usize, 1] {
-                    v.push((C01 { w, h: 40, tpl0, vt: w == 8, reduced: false }, 3));
+                    v.push((C01 { w, h: 40, tpl0, vt: w == 8, reduced: false }, 4));
                 }
             }
             v.push((C01 { w: 8, h: 40, tpl0: 1, vt: false, reduced: true }, 4));
